@@ -99,6 +99,20 @@ def c05(seed, tier):
     # a few realistic texts
     inputs |= {'a = b / "c" ; x\r\n', "a =/ 1*2( b c ) [ %x41-5A ]\r\n b\r\n", '%s"ab"', '%i"ab"', "%x41.42.43", "%b1-10",
                "<prose val>", "a ; c\r\n = b\r\n", "1*", "*", "3", "2*5", "rule-name-1", '%ſ"x"', '%S"x"', "%D65", "%Xaf"}
+    # malformed texts a lenient reader might let through (RFC 5234 has no escapes, no nested angle brackets, no dangling ranges)
+    inputs |= {'"a\\"b"', 'r = "a\\"b"\r\n', '"\\""', "<a<b>", "<a>b>", "r = <x>>\r\n", "%x41.42-5A", "%d1-2-3", "%b1.0-1", "%x41-", "%x-41",
+               "%x41..42", "1**2", "*1*", "a = b\r\n\r\n", "a = b ; c", "a = b\n", ";c\r\n", " a = b\r\n", "a = (b\r\n)\r\n", "a = [ ]\r\n", "a = ( )\r\n",
+               "a-- = b\r\n", "-a = b\r\n", "a1-2 = b\r\n", "A = %x0.00.000\r\n", "0*0x", "007", "1*1*1"}
+    # a user class derived from the reader's own class that defines rules named like meta rules: the reader must not change
+    # (looked up BEFORE the probes below, so that every probe sees the registry after it)
+    try:
+        U = type("UserReader", (P.ABNFGrammarRule,), {})
+        for t in ['comment = "#" *VCHAR CRLF', 'rulename = ALPHA *( ALPHA / DIGIT / "_" )', 'c-wsp = WSP', 'repeat = 1*DIGIT', 'defined-as = ":="',
+                  'elements = "x"', 'char-val = "\'" *VCHAR "\'"', 'rule = "r"', 'rulelist = "l"', 'prose-val = "<>"']:
+            U.create(t)
+    except Exception as e:  # noqa: BLE001
+        return {"evaluations": 0, "distinct_nontrivial": 0, "n_mismatches": 1, "stats": {}, "samples": [],
+                "mismatches": [{"rule": "-", "s": "-", "i": 0, "what": "defining meta-named rules in a subclass of the reader class raised " + type(e).__name__}]}
     inputs = sorted(inputs)
     lines_t, lines_r, plan = ["RRESET"], ["RRFC"], []
     for s in inputs:
@@ -154,6 +168,8 @@ def c06(seed, tier):
         cps = sorted(pts)
         exhaustive = False
     sub = type("Fresh", (P.Rule,), {})
+    sub2 = type("FreshBelow", (sub,), {})          # a grammar derived from another grammar
+    mix = type("FreshMixed", (type("Mixin", (), {}), P.Rule), {})      # ... and one with a mixin listed before Rule
     mism = []
     n_eval = 0
     accepted = 0
@@ -161,6 +177,8 @@ def c06(seed, tier):
         r0, r1 = P.Rule(name), sub(name)
         if r0 is not r1:
             mism.append({"rule": name, "what": "a fresh subclass does not see the core rule object"})
+        if sub2(name) is not r0 or mix(name.swapcase()) is not r0:
+            mism.append({"rule": name, "what": "a grammar class derived from another grammar class (or with a mixin) does not see the core rule object"})
         lp = r0.lparse
         for c in cps:
             ch = chr(c)
@@ -250,7 +268,10 @@ def c06(seed, tier):
             lines.append(" ".join(["RPARSE", "0", "0"] + stoks(name) + ["0"] + st))
             plan.append((name, s, impl))
     for name in CORE:     # all 16 at every offset of a few mixed strings
-        for s in ["a1 \t\r\n", "\r\n \r\n\t", "Fz\x00\x7f\x80ÿĀ", '"G g', "\r", "\n\r"]:
+        # ... and after characters whose lower/upper/casefold forms have ANOTHER LENGTH (İ -> i + U+0307, ß -> ss, ŉ, ǰ, ΐ, ﬁ, ẞ): a
+        # rule tried at an offset behind one of them must see the characters that are there
+        for s in ["a1 \t\r\n", "\r\n \r\n\t", "Fz\x00\x7f\x80ÿĀ", '"G g', "\r", "\n\r",
+                  "\u0130abcdefABCDEF01 \t\r\n", "\u00dfBf\u017fK\u01311 ", "\u0149A\r\n\u01f00\u0390x\ufb019\u1e9ez\"", "\u0130\u0130a\u00dfF"]:
             for i in range(len(s) + 1):
                 impl = ends(pyimpl.run_lparse(P.Rule(name), s, i))
                 lines.append(" ".join(["RPARSE", "0", "0"] + stoks(name) + [str(i)] + stoks(s)))
